@@ -573,7 +573,7 @@ def h_resync(ctx, *a, **k):
 
 
 def _h_resync(ctx, fams, aro, cuts, n_up, n_down, up_kinds, down_kinds, losses=1, dom=3, jmax=5, up_at=('start', 'mid', 'idle'),
-              first_up=None, first_down=None, later_cuts=None, rate=False):
+              first_up=None, first_down=None, later_cuts=None, rate=False, n_up_later=None, later_down_kinds=None):
     fams = tuple(fams)
     nb, cfg, pool = shape(fams, aro, rate)
     # ---- configured routes: symbolic prefixes, the parsed attributes
@@ -597,7 +597,7 @@ def _h_resync(ctx, fams, aro, cuts, n_up, n_down, up_kinds, down_kinds, losses=1
         plan.append((cut, j))
         ups = []
         if cut in LIVE_CUTS + ('read',):
-            for i in range(n_up):
+            for i in range(n_up if (k == 0 or n_up_later is None) else n_up_later):
                 kinds = first_up if (first_up is not None and k == 0 and i == 0) else up_kinds
                 kind = kinds if isinstance(kinds, str) else ctx.pick('s%d.u%d' % (k, i), kinds)
                 if kind == 'none':
@@ -609,7 +609,7 @@ def _h_resync(ctx, fams, aro, cuts, n_up, n_down, up_kinds, down_kinds, losses=1
         ops_up.append(ups)
         downs = []
         for i in range(n_down):
-            kinds = first_down if (first_down is not None and k == 0 and i == 0) else down_kinds
+            kinds = first_down if (first_down is not None and k == 0 and i == 0) else (down_kinds if (k == 0 or later_down_kinds is None) else later_down_kinds)
             kind = kinds if isinstance(kinds, str) else ctx.pick('s%d.d%d' % (k, i), kinds)
             if kind == 'none':
                 break
@@ -829,10 +829,11 @@ def units(tier):
             for k in none4:
                 us.append(_u('resync/%s/v4/live/u1d2/%s' % (tag, short(k)), (), fams=(V4,), aro=aro, cuts=LIVE_CUTS, n_up=1, n_down=2,
                              up_kinds=none4, first_up=k, down_kinds=KINDS4, weight=300))
-            # a second loss: attempt 1 and attempt 2 are both lost, attempt 3 is judged
+            # a second loss: attempt 1 and attempt 2 are both lost (any pair of cut points), attempt 3 is judged
             for c in EST_CUTS + LIVE_CUTS:
                 us.append(_u('resync/%s/v4/two-losses/%s' % (tag, c), ('operation-while-down',), fams=(V4,), aro=aro, cuts=(c,), later_cuts=EST_CUTS + LIVE_CUTS,
-                             losses=2, n_up=1, n_down=1, up_kinds=none4, down_kinds=none4, up_at=('mid', 'idle'), weight=250))
+                             losses=2, n_up=1, n_up_later=0, n_down=1, up_kinds=('none', 'announce:y', 'withdraw'),
+                             down_kinds=('none', 'announce:x', 'announce:y', 'withdraw'), later_down_kinds=none4, up_at=('mid', 'idle'), weight=250))
         us.append(_u('resync/kept/v4/down3/dom4', (), fams=(V4,), aro=True, cuts=EST_CUTS, n_up=0, n_down=3, up_kinds=(), dom=4,
                      down_kinds=KINDS4, weight=200))
         us.append(_u('resync/off/v4/down3', (), fams=(V4,), aro=False, cuts=('refused',), n_up=0, n_down=3, up_kinds=(),
